@@ -36,7 +36,7 @@ QUICK_RUNS = 6000
 THOROUGH_RUNS = 400_000
 EXPECT_PROBES = ["conflict_free_step", "conflicting_step_skipped", "higher_priority_bounds_bind", "pref_inside_exclusion_zone",
                  "tie_between_exclusion_edges", "null_proposal_checked", "report_contract_checked", "actor_variant",
-                 "two_actors_share_a_priority"]
+                 "two_actors_share_a_priority", "system_bounds_outage"]
 
 IDS = frozenset({8, 18})
 
@@ -60,7 +60,8 @@ def _fresh(live: list[dict[str, Any]], sb: dict[str, Any], sim: Sim) -> Any:
     return m
 
 
-def check_live_set(sim: Sim, m: Any, live: list[dict[str, Any]], sb: dict[str, Any], step: Any) -> None:
+def check_live_set(sim: Sim, m: Any, live: list[dict[str, Any]], sb: dict[str, Any], step: Any,
+                   handed: dict[str, Any] | None = None) -> None:
     """Evaluate the three clauses on the real instance `m` whose live set is `live`."""
     ch = sim.ch
     if sb["lo"] is None or not live:
@@ -77,7 +78,16 @@ def check_live_set(sim: Sim, m: Any, live: list[dict[str, Any]], sb: dict[str, A
     sysb = pm.mk_sysbounds(sb, sim.wall())
     # first the way the actor's bounds tracker tells the algorithm about (possibly new) system bounds, and what the
     # actor would then use as the current target; only afterwards the explicit must_return_power=True form
-    m.calculate_target_power(IDS, None, sysb)
+    changed = pm.watts(m.calculate_target_power(IDS, None, sysb))
+    if handed is not None:
+        if changed is not None:
+            handed["v"] = changed
+        if "v" in handed and not any(abs(handed["v"] - a_) < 1e-9 for a_ in ref["accept"]):
+            # an answer of None means "unchanged": the value handed out last must then be the right one
+            sim.violation("matches_reference", {"what": "recalculation answered 'unchanged' but the last target handed out is wrong"},
+                          f"step {step}: last target handed out {handed['v']} W, calculate_target_power(proposal=None) "
+                          f"answered {changed}, reference accepts {sorted(ref['accept'])}; bounds {sb}; live "
+                          f"{[pm.pstr(p) for p in by_prio]}")
     cur = pm.watts(m.get_target_power(IDS))
     if cur not in ref["accept"]:
         sim.violation("matches_reference", {"what": "current target after a bounds-only recalculation differs from the reference"},
@@ -179,7 +189,10 @@ def scenario_object(sim: Sim) -> None:
     actors = [{"name": f"a{i}", "prio": prios[i]} for i in range(n)]
     m = Matryoshka(max_proposal_age=timedelta(seconds=pm.MAX_AGE_S))
     sb = pm.gen_sysbounds(ch, allow_none=False)
-    now = 100.0
+    # the algorithm's notion of "now" is the event loop's clock (proposals carry loop time): keep both in step
+    sim.loop.advance(100_000_000)
+    now = sim.loop.time()
+    handed: dict[str, Any] = {}
     live: dict[str, dict[str, Any]] = {}
     for step in range(ch.int_between("nops", 6, sim.scale(30, 70))):
         op = ch.weighted("op", [7, 1, 1, 2])
@@ -197,9 +210,12 @@ def scenario_object(sim: Sim) -> None:
             live[a["name"]] = p
             sim.ev("propose", a["name"], p["pref"], p["lower"], p["upper"])
             sim.note(f"propose {pm.pstr(p)}")
-            m.calculate_target_power(IDS, pm.mk_proposal(p, IDS), pm.mk_sysbounds(sb, sim.wall()))
+            ret = m.calculate_target_power(IDS, pm.mk_proposal(p, IDS), pm.mk_sysbounds(sb, sim.wall()))
+            if ret is not None:
+                handed["v"] = pm.watts(ret)
         elif op == 1:
-            now += ch.choice("dt", [1.0, 30.0, 59.0, 61.0])
+            sim.loop.advance(int(ch.choice("dt", [1.0, 30.0, 59.0, 61.0]) * 1e6))
+            now = sim.loop.time()
             sim.ev("advance", "", now)
         elif op == 2:
             m.drop_old_proposals(now)
@@ -207,10 +223,16 @@ def scenario_object(sim: Sim) -> None:
                 del live[k]
             sim.ev("drop_old", "")
         else:
+            if live and ch.chance("bounds_outage", 0.2):
+                # the pool has no bounds for a moment (no working components), then they come back
+                sim.probe("system_bounds_outage")
+                ret = m.calculate_target_power(IDS, None, pm.mk_sysbounds({"lo": None, "hi": None, "xlo": 0.0, "xhi": 0.0}, sim.wall()))
+                if ret is not None:
+                    handed["v"] = pm.watts(ret)
             sb = pm.gen_sysbounds(ch, allow_none=False)
             sim.ev("bounds", "", repr(sorted(sb.items())))
             sim.note(f"bounds {sb}")
-        check_live_set(sim, m, list(live.values()), sb, step)
+        check_live_set(sim, m, list(live.values()), sb, step, handed)
 
 
 def scenario_actor(sim: Sim) -> None:
